@@ -319,16 +319,20 @@ func init() {
 			return "", err
 		}
 		fagg := FindFunc(fa, "fieldAggregator", "Aggregate")
-		usesKind := false
+		usesKind, callsBySlot := false, false
 		if fagg != nil {
 			ast.Inspect(fagg.Body, func(n ast.Node) bool {
 				if se, ok := n.(*ast.SelectorExpr); ok && se.Sel.Name == "AggType" {
 					usesKind = true
 				}
+				if se, ok := n.(*ast.SelectorExpr); ok && se.Sel.Name == "AggregateBySlot" {
+					callsBySlot = true
+				}
 				return true
 			})
 		}
 		fmt.Fprintf(&sb, "/-- fieldAggregator.Aggregate never looks at `pIt.AggType()`: every incoming primitive series feeds every kind -/\ndef crossFeeds : Bool := %v\n", !usesKind)
+		fmt.Fprintf(&sb, "/-- fieldAggregator.Aggregate looks at `pIt.AggType()` but still falls back to AggregateBySlot (every kind) -/\ndef crossFeedFallback : Bool := %v\n", usesKind && callsBySlot)
 		fmt.Fprintf(&sb, "def fieldAggregateCalls : List String := %s\n", LeanStrList(CallSeq(fagg)))
 
 		// ---------------- series/field/type.go tables
